@@ -13,6 +13,83 @@ CLAIMED = {
    note="Wiring P (production ByteParser/Parser + Arc<Mutex<Screen>>); streams are sampled, cut positions enumerated."),
 }
 
+
+SIMQ = "deterministic simulation (wiring Q): the real parser's listener events are applied one by one to the real Screen by a seeded scheduler that interleaves Renderer/Resizer/Operator actors and a fault-injecting line; "
+CLAIMED.update({
+ "C03": dict(level="exploration", ref="DESIGN.md §7 C03, §8.1",
+   technique="deterministic simulation of the stream reader: seeded, fault-mangled character streams in seeded chunkings into the real Parser with a recording listener; history checked against an independent explicit-state reference recogniser",
+   text="Grade C (no schedule or fault can change the verdict; the simulator contributes inputs, chunkings and corruption only). Sampled refinement: recorded leaf events (operation, parameters, private flag, merged text) must equal the reference recogniser's; comparison stops where input leaves the documented grammar. Reach reported as (state x class) transitions covered; the bounded-exhaustive enumeration of the quantifier is not claimed.",
+   note="Reference grammar and its 'unspecified' list are in DESIGN.md §8.1; runs the shipping cfg(not(test)) recogniser through the shipped dispatch tables."),
+ "C04": dict(level="exploration", ref="DESIGN.md §7 C04, §8.3 DRAW",
+   technique=SIMQ+"every draw event judged by step relation DRAW re-anchored on the real pre-state",
+   text="Grade B. Every draw() reaching the screen (parser fast path, CSI-embedded, Operator multi-character strings) is judged from the real pre-state: affected cells, cursor, nothing else. Pre-states come from interleavings with paints, resizes, mode toggles, IRM, DECAWM off, wide/combining/zero-width characters, 1-column screens.",
+   note="unicode-width / unicode-normalization trusted; leniencies of DESIGN.md §8.4 (zero-width at pending wrap, combining on blank cell, multi-char draw with unprintable)."),
+ "C05": dict(level="exploration", ref="DESIGN.md §7 C05, §8.3 MOVE",
+   technique=SIMQ+"every cursor-movement operation judged by closed-form step relation MOVE",
+   text="Grade C (per-operation law; schedule only supplies pre-states, e.g. cursor outside the region after a resize). Raw csi/basic dispatch calls recorded from the real parser are applied through Screen's own dispatch and compared with the documented table + clamping rules; everything else must be unchanged.",
+   note="Parameter/cursor/region/DECOM tuples reached are reported in evidence (reach_sets)."),
+ "C06": dict(level="exploration", ref="DESIGN.md §7 C06, §8.3 INDEX/IL/DL/STBM",
+   technique=SIMQ+"scroll / IL / DL / DECSTBM judged by step relations on distinct-marker grids",
+   text="Grade B: violations depend on history (never-written rows, paints, resizes before the operation). Every IND/LF/VT/FF/NEL/RI/IL/DL/DECSTBM is judged row by row against the reference from the real pre-state.",
+   note="Leniencies: CSI r cursor, missing DECSTBM edge (DESIGN.md §8.4)."),
+ "C07": dict(level="exploration", ref="DESIGN.md §7 C07, §8.3 ED/EL/ECH",
+   technique=SIMQ+"erase operations judged by step relations ED/EL/ECH",
+   text="Grade C. ED/EL/ECH with every selector class and count class from simulator-reached states (cursor everywhere incl. pending wrap, margins, DECOM, coloured renditions): exactly the documented cells become blank+cursor rendition, all else identical.",
+   note="erase_in_display(None) (API only) admits no-op or ED 0."),
+ "C08": dict(level="exploration", ref="DESIGN.md §7 C08, §8.3 SGR",
+   technique=SIMQ+"SGR judged by an independent fold with its own palette computation",
+   text="Grade C. CSI...m and select_graphic_rendition lists (single codes 0..=9999 sampled, all 38/48 forms, truncated and out-of-range tails) folded by the reference; grid must be unchanged. codes_hit / palette indices reported, exhaustiveness not claimed.",
+   note="Cells drawn afterwards carrying the rendition is DRAW's clause (C04)."),
+ "C09": dict(level="exploration", ref="DESIGN.md §7 C09",
+   technique=SIMQ+"well-formedness invariant evaluated after construction and after every atomic step",
+   text="Grade A: the invariant must survive resizes and API calls landing between any two parser events. Cursor bounds, margins, dirty indices, display() row count (on a copy), colour strings checked after every step of every run.",
+   note="All fault kinds on; resize >= 1x1; arguments absent or 0..=9999."),
+ "C10": dict(level="fault_enumeration", ref="DESIGN.md §7 C10",
+   technique="deterministic simulation (wiring Q) of two screens driven by one parser: the same history with and without display() interposed at seeded / enumerated operation boundaries; model-free twin comparison",
+   text="Grade A. display() output == rendering recomputed from the grid; snapshot unchanged by display(); the two screens identical after every common step. For histories <= 40 operations every single insertion point is enumerated.",
+   note="Histories sampled, insertion points enumerated."),
+ "C11": dict(level="fault_enumeration", ref="DESIGN.md §7 C11, §8.2",
+   technique="deterministic simulation of the byte stream reader: seeded byte soup in seeded / enumerated chunkings with mode switches between chunks; twin with the decoder isolated (real ByteParser vs real char Parser fed std's lossy decoding)",
+   text="Grade A. Events from the real ByteParser must equal those of the real character-level parser fed the reference decoding (std::str::from_utf8 driven incrementally, maximal-subpart U+FFFD, incomplete tail withheld; b as char in 8-bit segments). Every 2-way cut enumerated for strings <= 48 bytes.",
+   note="std's decoder trusted, encoding_rs not; leniencies: leading BOM, pending tail at a mode switch."),
+ "C12": dict(level="exploration", ref="DESIGN.md §7 C12, §8.3 SM/RM",
+   technique=SIMQ+"SM/RM judged by step relations (mode set + per-mode side effects)",
+   text="Grade B. Mode numbers 0..=9999 x private/ANSI x SM/RM, lists, repeats, both Operator spellings, interleaved with DECSC/DECRC, resizes, drawing: mode set and documented side effects (DECCOLM, DECOM, DECSCNM incl. all rows dirty, DECTCEM) and absence of any other effect.",
+   note="Lists with two or more of DECCOLM/DECOM/DECSCNM are judged on the mode set only."),
+ "C13": dict(level="exploration", ref="DESIGN.md §7 C13, §8.3 ICH/DCH",
+   technique=SIMQ+"ICH/DCH judged by list-splice step relations on the visible row",
+   text="Grade B: hidden cells beyond the edge only show through later edits, paints and grow resizes. Every ICH/DCH judged from the real pre-state; since every later step is judged against the visible pre-state, discarded characters cannot reappear unnoticed.",
+   note=""),
+ "C14": dict(level="exploration", ref="DESIGN.md §7 C14, §8.3 SAVE/RESTORE",
+   technique=SIMQ+"DECSC/DECRC judged by step relations over the full savepoint stack",
+   text="Grade B. save^k ... restore^m around movement, SGR, charsets, mode changes, margins and resizes (which push/pop themselves): LIFO, clamping, one-way DECOM/DECAWM re-enable, empty-stack behaviour; grid, margins, tab stops unchanged.",
+   note="Restored pending-wrap column may be C or C-1."),
+ "C15": dict(level="exploration", ref="DESIGN.md §7 C15",
+   technique="deterministic simulation (wiring Q): at RIS a second Screen::new is spawned and every later step (parser events and foreign actors) is applied to both; model-free twin comparison",
+   text="Grade B. After arbitrary histories (faults, all actors, RIS possibly mid-sequence) the state equals a new screen's (savepoints excepted, all rows dirty) and stays equal under the continuation until a DECRC.",
+   note=""),
+ "C16": dict(level="exploration", ref="DESIGN.md §7 C16, §8.3 RESIZE",
+   technique=SIMQ+"asynchronous resizes at arbitrary event boundaries judged by step relation RESIZE",
+   text="Grade A. The Resizer fires between any two parser events (1-4 per run, shrink-then-grow): crop/extend, rows dropped from the top, added area blank, margins reset, cursor inside, all rows dirty, same size = no-op; reappearing content is caught because the added area must be blank.",
+   note="Tab stops after a resize are unconstrained (HT's result is C18's)."),
+ "C17": dict(level="exploration", ref="DESIGN.md §7 C17",
+   technique=SIMQ+"framebuffer oracle: an incremental renderer that repaints only dirty rows must always show the real grid",
+   text="Grade A. The Renderer paints at scheduler-chosen moments; its framebuffer, updated only for rows in dirty, must equal the grid after every paint; dirty indices < lines; screen-wide changes mark every row.",
+   note="Over-approximation of dirty is never flagged."),
+ "C18": dict(level="exploration", ref="DESIGN.md §7 C18, §8.3 HTS/TBC/HT",
+   technique=SIMQ+"HTS/TBC/HT and RIS defaults judged by step relations",
+   text="Grade B: stops set at one width and used at another (resize, DECCOLM in between). HT lands on the nearest stop strictly right of the cursor or the last column; HTS/TBC edit exactly one stop / all; defaults every 8 columns after RIS.",
+   note="Stop sets compared on [0, columns) only."),
+ "C19": dict(level="exploration", ref="DESIGN.md §7 C19, §8.1",
+   technique="deterministic simulation of the stream reader: seeded OSC-heavy streams in seeded chunkings; recorded events vs the reference recogniser, and a model-free twin (same stream without its OSC strings) on the real screen",
+   text="Grade C. Title/icon events carry exactly the payload (any text incl. ; \\ ], non-ASCII, ESC x pairs, C0), all three terminators and both introducers, empty payloads, other codes without effect; the payload never reaches the grid or moves the cursor.",
+   note=""),
+ "C20": dict(level="exploration", ref="DESIGN.md §7 C20",
+   technique=SIMQ+"DEFINE/SHIFT step relations against reference tables, a translation twin for every draw, and the parser path checked against the reference recogniser",
+   text="Grade C. G0/G1 designation and SO/SI judged against reference tables (Latin-1 identity, CP437 from Python's codec, DEC graphics typed from the Linux console map, VAX42 golden copy); every draw compared with drawing the reference translation on an identity-table copy; in 8-bit mode designators/shifts must reach the listener, in UTF-8 mode not. (table, byte) pairs hit reported out of 1024.",
+   note="VAX42 and the non-line-drawing DEC entries are a regression check (no independent source offline)."),
+})
+
 TITLES = {}
 for l in open('/verif/properties.jsonl'):
     p = json.loads(l); TITLES[p['id']] = p['title']
